@@ -101,6 +101,9 @@ Record codec_ok : Prop := {
   ok_bits_pos : 1 <= c_bits C;
   ok_bits_le8 : c_bits C <= 8;
   ok_items_nodup : NoDup (c_items C);
+  (* the decoders have domain u8: the tables have exactly 256 entries *)
+  ok_len_try_bits : length (c_try_bits C) = 256;
+  ok_len_try_ascii : length (c_try_ascii C) = 256;
   (* every item fits the width, decodes from its own code by both bit decoders, and has a
      display byte that parses back to it by both ASCII decoders *)
   ok_item : forall x, In x (c_items C) ->
@@ -147,7 +150,9 @@ Definition char_injb : bool :=
      end) (c_items C)) (c_items C).
 
 Definition codec_okb : bool :=
-  Nat.leb 1 (c_bits C) && Nat.leb (c_bits C) 8 && nodupb (c_items C) &&
+  Nat.leb 1 (c_bits C) && Nat.leb (c_bits C) 8 &&
+  Nat.eqb (length (c_try_bits C)) 256 && Nat.eqb (length (c_try_ascii C)) 256 &&
+  nodupb (c_items C) &&
   forallb item_okb (c_items C) &&
   forallb try_bits_okb bytes256 && forallb try_ascii_okb bytes256 && char_injb.
 
@@ -161,10 +166,14 @@ Proof.
   match goal with h : forallb item_okb _ = true |- _ => rename h into Hitem end.
   match goal with h : nodupb _ = true |- _ => rename h into Hnd end.
   match goal with h : Nat.leb (c_bits C) 8 = true |- _ => rename h into H8 end.
+  match goal with h : Nat.eqb (length (c_try_bits C)) 256 = true |- _ => rename h into Hlb end.
+  match goal with h : Nat.eqb (length (c_try_ascii C)) 256 = true |- _ => rename h into Hla end.
   constructor.
   - apply Nat.leb_le; assumption.
   - apply Nat.leb_le; assumption.
   - apply nodupb_spec; assumption.
+  - apply Nat.eqb_eq; assumption.
+  - apply Nat.eqb_eq; assumption.
   - intros x Hx. rewrite forallb_forall in Hitem. specialize (Hitem x Hx).
     unfold item_okb in Hitem.
     apply andb_prop in Hitem. destruct Hitem as [Hitem Hch].
@@ -195,6 +204,15 @@ Proof.
     rewrite forallb_forall in Hinj. specialize (Hinj x Hx).
     rewrite forallb_forall in Hinj. specialize (Hinj y Hy).
     rewrite Ex, Ey, N.eqb_refl in Hinj. apply N.eqb_eq; assumption.
+Qed.
+
+Lemma tget_some_lt (t : list (option N)) b s :
+  length t = 256 -> tget t b = Some s -> (b < 256)%N.
+Proof.
+  intros Hl H. unfold tget in H.
+  destruct (Nat.lt_ge_cases (N.to_nat b) (length t)) as [Hlt|Hge].
+  - rewrite Hl in Hlt. lia.
+  - rewrite nth_overflow in H by exact Hge. discriminate.
 Qed.
 
 End WithCodec.
